@@ -257,7 +257,8 @@ func (fe *fidEngine) runStructs(c *ev.Case) {
 			if ok {
 				continue
 			}
-			sig := "fidelity|" + comp + "|struct-setter|" + f.kind
+			// the formatter is shared by all components and by slices: one signature per field type
+			sig := "fidelity|struct-setter|" + strings.TrimSuffix(f.kind, "-slice")
 			if reported[sig] {
 				continue
 			}
